@@ -402,13 +402,32 @@ def axioms_for(name, z1, z2):
 
 
 def func(job, mc, name):
-    with tr.traced():
-        x, z1, z2 = bic(mc, 'x')
-        res = getattr(x, name)()
-    job.paths += 1
-    u, v = U(z1, z2), V(z1, z2)
-    ax = axioms_for(name, z1, z2)
-    _decomp_claims(job, res, cuf(name, u), cuf(name, v), ax, 'C12:func:%s' % name, dict(op=name))
+    def harness():
+        with tr.traced():
+            x, z1, z2 = bic(mc, 'x')
+            return getattr(x, name)(), z1, z2
+    # the component formulas have no branches; a data-dependent shortcut (large arguments, ...) forks and is checked per path
+    ex = sn.Explorer(harness, max_paths=32, timeout_ms=5000)
+    n = 0
+    for path in ex.paths():
+        if path.exc is not None:
+            if isinstance(path.exc, sn.Unsupported):
+                raise path.exc
+            job.violation('raises', dict(key='C12:func:%s:raises' % name, kind='bicomplex', op=name, exc=repr(path.exc)[:200]))
+            continue
+        n += 1
+        res, z1, z2 = path.result
+        job.paths += 1
+        u, v = U(z1, z2), V(z1, z2)
+        ax = axioms_for(name, z1, z2)
+        r1, r2 = of_symc(res.z1), of_symc(res.z2)
+        info = dict(key='C12:func:%s' % name, kind='bicomplex', op=name)
+        for label, lhs, rhs in (('z1 - i z2 == f(u)', U(r1, r2), cuf(name, u)), ('z1 + i z2 == f(v)', V(r1, r2), cuf(name, v))):
+            dr = z3.simplify(_rw(lhs.r - rhs.r, ax), som=True)
+            di = z3.simplify(_rw(lhs.i - rhs.i, ax), som=True)
+            job.prove(label, z3.And(dr == 0, di == 0), path.conds(), info)
+    job.absorb_explorer(ex)
+    job.confirm('at least one path', n > 0)
     _validate(job, mc, name)
 
 
@@ -904,8 +923,14 @@ def numeric_deviation(mc, op, k=0, trials=40, seed=0):
     rng = np.random.default_rng(seed)
     worst, where = 0.0, None
     for _ in range(trials):
-        # log1p is defined for Re z1 > -1: base points on both sides of 0
+        # log1p is defined for Re z1 > -1: base points on both sides of 0; the entire functions also at large |Re z1|
+        if op in ('exp', 'sin', 'cos', 'sinh', 'cosh', 'expm1') and _ % 2:
+            big = float(rng.choice([-40.0, -25.0, -21.0, 21.0, 25.0, 30.0])) if op in ('sinh', 'cosh', 'exp', 'expm1') else float(rng.uniform(-40, 40))
+        else:
+            big = None
         z1 = complex(rng.uniform(-0.9, 1.5) if op == 'log1p' else rng.uniform(0.2, 1.5), rng.normal() * (0.03 if op == 'log1p' else 0.3))
+        if big is not None:
+            z1 = complex(big, z1.imag * 1e-3)
         z2 = complex(rng.normal() * 0.3, rng.normal() * 0.3)
         y1 = complex(rng.normal(), rng.normal())
         y2 = complex(rng.normal(), rng.normal())
